@@ -160,6 +160,7 @@ enum EvKind : uint8_t {
 	EV_CB = 1,
 	EV_CHANGE, EV_CANCEL, EV_SUCCEED, EV_FAIL, EV_PLAN_APPEND, EV_PLAN_CLEAR, EV_PLAN_REMOVE,
 	EV_LOG_METHOD, EV_LOG_TRANS, EV_LOG_TASK, EV_LOG_CANCEL, EV_LOG_PLAN,
+	EV_LOG_ATTACH,   // a callback attached (a = 1) or detached (a = 0) the logger
 	EV_MARK // section marker inside a compound op (a = marker id)
 };
 enum Meth : uint8_t { M_NONE = 0, M_EG = 1, M_ENTER, M_REENTER, M_PRE_UPDATE, M_UPDATE, M_POST_UPDATE, M_PRE_REACT, M_REACT, M_QUERY, M_POST_REACT, M_XG, M_EXIT, M_PLAN_OK, M_PLAN_FAIL };
@@ -189,12 +190,12 @@ struct Ev {
 // --------------------------------------------------------------------------- decisions
 enum ActK : uint8_t { A_NONE, A_CANCEL, A_CHANGE, A_CANCEL_CHANGE, A_CHANGEW, A_CANCEL_CHANGEW, A_SUCCEED, A_FAIL, A_SUCCEED_ID, A_FAIL_ID, A_PLAN_CHANGE, A_PLAN_CHANGEW, A_PLAN_CLEAR, A_PLAN_REMOVE,
 	// composite decisions: several actions in one callback invocation
-	A_CHANGE_CANCEL, A_CHANGE2, A_FAIL_SUCCEED, A_SUCCEED_FAIL, A_SUCCEED_CHANGE, A_CHANGE_SUCCEED, A_CHANGEW_CHANGE, A_CHANGE_CHANGEW, A_CANCEL2 };
+	A_CHANGE_CANCEL, A_CHANGE2, A_FAIL_SUCCEED, A_SUCCEED_FAIL, A_SUCCEED_CHANGE, A_CHANGE_SUCCEED, A_CHANGEW_CHANGE, A_CHANGE_CHANGEW, A_CANCEL2, A_LOG_ON, A_LOG_OFF };
 struct Act { uint8_t k, a, b, pv; };
 
 enum MenuFlag : unsigned {
 	MF_PHASE_REQ = 1, MF_GUARD_CANCEL = 2, MF_GUARD_REQ = 4, MF_PAYLOAD = 8, MF_PAYLOAD2 = 16,
-	MF_REPORT = 32, MF_REPORT_OTHER = 64, MF_PLAN_EDIT = 128, MF_LIFE_EDIT = 256, MF_GUARD_REPORT = 512, MF_INJ_DECIDE = 1024, MF_COMPOSITE = 2048
+	MF_REPORT = 32, MF_REPORT_OTHER = 64, MF_PLAN_EDIT = 128, MF_LIFE_EDIT = 256, MF_GUARD_REPORT = 512, MF_INJ_DECIDE = 1024, MF_COMPOSITE = 2048, MF_LOG_TOGGLE = 4096   /* phase callbacks attach / detach the logger */
 };
 
 enum DrvMode : uint8_t { DM_DFS, DM_STRATEGY, DM_HOSTILE, DM_QUIET };
@@ -659,6 +660,7 @@ template <typename C> inline void do_plan_remove(C& c, uint8_t sid, uint8_t inj,
 }
 #endif
 
+void vx_attach_logger(bool on);   // defined after the logger type
 template <typename C>
 inline void perform_full(C& c, const Act& a, uint8_t sid, uint8_t inj, uint8_t meth) {
 	switch (a.k) {
@@ -678,6 +680,9 @@ inline void perform_full(C& c, const Act& a, uint8_t sid, uint8_t inj, uint8_t m
 	case A_CHANGE_SUCCEED: do_change(c, sid, inj, meth, a.a, 0); do_report(c, sid, inj, meth, true, false, 0); break;
 #endif
 	case A_CHANGE2: do_change(c, sid, inj, meth, a.a, 0); do_change(c, sid, inj, meth, a.b, 0); break;
+#if VX_LOG
+	case A_LOG_ON: case A_LOG_OFF: { vx_attach_logger(a.k == A_LOG_ON); Ev& e = G.push(); e.kind = EV_LOG_ATTACH; e.sid = sid; e.inj = inj; e.meth = meth; e.a = a.k == A_LOG_ON; } break;
+#endif
 	case A_CHANGEW_CHANGE: do_change(c, sid, inj, meth, a.a, a.pv); do_change(c, sid, inj, meth, a.b, 0); break;
 	case A_CHANGE_CHANGEW: do_change(c, sid, inj, meth, a.a, 0); do_change(c, sid, inj, meth, a.b, a.pv); break;
 	default: break;
@@ -780,6 +785,9 @@ struct Log : Inst::Logger {
 	void recordCancelledPending(const Context&, const StateID origin) override { Ev& e = G.push(); e.kind = EV_LOG_CANCEL; e.sid = origin; }
 };
 static Log g_log;
+inline void vx_attach_logger(bool on) { curInst()->attachLogger(on ? &g_log : nullptr); }
+#else
+inline void vx_attach_logger(bool) {}
 #endif
 
 // --------------------------------------------------------------------------- instance storage
